@@ -114,18 +114,18 @@ def ghost_trim_obligations(R):
     import aurel.reading as Rm
     for fname in ('read_ET_group_or_var', 'read_ET_checkpoints'):
         R.under_contract(getattr(Rm, fname))
-        for chunked in (False, True):
+        for chunked in (False, True, 'single piece labelled c=0', 'single per-process file'):
             def run(fname=fname, chunked=chunked):
                 c = SX.ctx()
                 dsets, decoys = {}, {}
-                nch = 2 if chunked else 1
+                nch = 2 if chunked is True else 1
                 for ci in range(nch):
                     dims = [c.new_int(f'n{a}{ci}') for a in 'zyx']
                     gs = {a: c.new_int(f'ghost_{a}{ci}') for a in 'xyz'}
                     for a, d in zip('zyx', dims):
                         c.assume(gs[a] >= 1)
                         c.assume(d >= 2 * gs[a] + 1)
-                    suffix = f' c={ci}' if chunked else ''
+                    suffix = f' c={ci}' if chunked in (True, 'single piece labelled c=0') else ''
                     dsets[f'ADMBASE::alp it=8 tl=0 rl=1{suffix}'] = _DSet(f'F{ci}', dims, gs, (0, 0, 7 * ci))
                     # decoys: other iteration, other level, other time level, other variable
                     for key in (f'ADMBASE::alp it=16 tl=0 rl=1{suffix}', f'ADMBASE::alp it=8 tl=0 rl=0{suffix}', f'ADMBASE::betax it=8 tl=0 rl=1{suffix}'):
@@ -135,7 +135,7 @@ def ghost_trim_obligations(R):
                 content = {'Parameters and Global Attributes': None, **decoys, **dsets}
                 captured = []
                 if fname == 'read_ET_group_or_var':
-                    path = '/s/run/output-0000/run/alp.h5'
+                    path = '/s/run/output-0000/run/alp.file_0.h5' if chunked == 'single per-process file' else '/s/run/output-0000/run/alp.h5'
                 else:
                     path = '/s/run/output-0000/run/checkpoint.chkpt.it_8.h5'
                 mod = RebMod(Rm, {'np': SX.ShimNPz(), 'h5py': _H5({path: content}), 'print': lambda *a, **k: None})
@@ -170,10 +170,16 @@ def ghost_trim_obligations(R):
                     return ('joined', len(captured) - 1)
                 mod._g['join_chunks'] = join_stub
                 mod._g['fixij'] = lambda x: ('fixed', x)
-                if fname == 'read_ET_group_or_var':
-                    out = mod.read_ET_group_or_var(['alp'], [path], 'in file', it=[8], rl=1)
-                else:
-                    out = mod.read_ET_checkpoints({'simpath': '/s/', 'simname': 'run'}, ['alpha'], it=[8], rl=1, restart=0, verbose=False)
+                try:
+                    if fname == 'read_ET_group_or_var':
+                        out = mod.read_ET_group_or_var(['alp'], [path], 0 if chunked == 'single per-process file' else 'in file', it=[8], rl=1)
+                    else:
+                        out = mod.read_ET_checkpoints({'simpath': '/s/', 'simname': 'run'}, ['alpha'], it=[8], rl=1, restart=0, verbose=False)
+                except (SX.PathAbort, SX.Infeasible, SX.PathEnd):
+                    raise
+                except Exception as e:
+                    c.require(f'a supported layout is read without raising (got {type(e).__name__}: {str(e)[:120]})', z3.BoolVal(False))
+                    return
                 c.require('join_chunks is called once, for the requested variable', z3.BoolVal(len(captured) == 1))
                 if len(captured) != 1:
                     return
@@ -198,12 +204,15 @@ def ghost_trim_obligations(R):
                 tcol = out.get('t')
                 c.require('one time value per iteration, the time attribute of the data', z3.BoolVal(list(tcol) == [1.5]))
                 c.require('the joined, index-fixed array is returned under the aurel name', z3.BoolVal(out.get('alpha') == [('fixed', ('joined', 0))]))
+            label = '2 chunks' if chunked is True else 'no chunks' if chunked is False else chunked
+            if fname == 'read_ET_checkpoints' and chunked not in (True, False):
+                continue
             try:
                 paths = explore(run)
             except SX.PathAbort as e:
-                R.ob(f'reading.{fname}[ghost trimming, {"2 chunks" if chunked else "no chunks"}]:paths', fname, 'undecided', 'z3', 0.0, str(e))
+                R.ob(f'reading.{fname}[ghost trimming, {label}]:paths', fname, 'undecided', 'z3', 0.0, str(e))
                 continue
-            discharge(R, f'reading.{fname}[ghost trimming, {"2 chunks" if chunked else "no chunks"}]', fname, paths)
+            discharge(R, f'reading.{fname}[ghost trimming, {label}]', fname, paths)
     R.trust('requires ghost width >= 1 on every axis (Carpet writes the ghost zones it reports); a width of 0 would make a[0:-0] empty')
 
 
@@ -378,6 +387,10 @@ def directory_cases(tier):
             ghost = 1 + (li + ci) % 3
             rev = (ci % 2 == 1)
             cases.append(dict(layout=layout, cuts=cuts, ghost=ghost, reverse=rev))
+        # a single piece written the way a one-process run writes it: per-process file name and / or chunk label c=0
+        for sac in ((True, False), (True, True), (False, True)):
+            if layout[0] == 'proc' or not sac[0]:
+                cases.append(dict(layout=layout, cuts=(1, 1, 1), ghost=2, reverse=False, single_as_chunk=sac))
         # a re-run from the same checkpoint that stopped early: restart ranges do not end in increasing order
         cases.append(dict(layout=layout, cuts=(2, 1, 1), ghost=1 + li % 2, reverse=False, nonmono=True))
     return cases
@@ -399,7 +412,8 @@ def run_directory_case(case, seed=0):
             latest = {0: 0, 2: 0, 4: 2, 6: 2, 8: 2, 10: 1, 12: 1}
             requests = (([6, 12], ['alpha'], 0), ([4, 6, 10], ['betax', 'rho0'], 1), ([12, 0, 8, 2], ['betaup3'], 0), ([6], ['gxx'], 0))
         truth = etgen.make_sim(root, 'sim', case['layout'], restarts=restarts, shape=(6, 5, 4), cuts=case['cuts'], ghost=case['ghost'],
-                               rls=(0, 1), variables=('alp', 'betax', 'betay', 'betaz', 'gxx', 'gxy', 'gxz', 'gyy', 'gyz', 'gzz', 'rho'), chunk_order=order)
+                               rls=(0, 1), variables=('alp', 'betax', 'betay', 'betaz', 'gxx', 'gxy', 'gxz', 'gyy', 'gyz', 'gzz', 'rho'), chunk_order=order,
+                               single_as_chunk=case.get('single_as_chunk', (False, False)))
         p = etgen.param_for(root, 'sim')
         for its, vars_, rl in requests:
             d = aurel.read_data(p, it=list(its), vars=list(vars_), rl=rl, split_per_it=False, verbose=False, skip_last=False)
@@ -449,7 +463,7 @@ def directory_obligations(R, tier):
 def native_dir_replay(o=None):
     bad = []
     cases = directory_cases('quick')
-    for case in [c for c in cases if c.get('nonmono')] + cases[:8]:
+    for case in [c for c in cases if c.get('nonmono') or c.get('single_as_chunk')] + cases[:8]:
         bad += run_directory_case(case)
         if bad:
             break
